@@ -4,19 +4,24 @@ from contracts import c03_context as C3
 from contracts import c09_fixobj as C9
 from contracts import c09_pfba as CP
 from contracts import c09_absexpr as CA
+from contracts import c09_room as CR
+from contracts import c09_moma as CM  # noqa  (registers add_moma; its hooks are those of c09_room)
 from pyvc.contract import chain_hooks
 
 LEVEL = "other"
-KEYS = ["add_cons_vars_to_problem", "fix_objective_as_constraint", "add_pfba", "add_absolute_expression"]
+KEYS = ["add_cons_vars_to_problem", "fix_objective_as_constraint", "add_pfba", "add_absolute_expression", "add_room", "add_moma"]
 
 
 def run(rep):
-    run_property(rep, KEYS, hooks=chain_hooks(CP.HOOKS, CA.HOOKS, C3.ALL_HOOKS, C9.HOOKS), lemmas=lambda: CP.lemmas() + CA.lemmas(), explanation=(
-        "Deductive part is thin and stated as such: the formulations are built from sympy/optlang expression arithmetic over all "
-        "reactions (add_pfba, add_moma, add_room), which the verifier cannot interpret; within reach are the helper through which "
-        "every one of them installs its variables and constraints, add_cons_vars_to_problem (proved: performs solver.add(what) and, "
-        "in a context, registers exactly the inverse solver.remove(what) in the innermost context), and fix_objective_as_constraint, "
-        "verified through the opaque expression algebra: the constraint it installs is Constraint(objective expression, lb=bound) for a "
+    run_property(rep, KEYS, hooks=chain_hooks(CR.OWN_HOOKS, CP.HOOKS, CA.HOOKS, C3.ALL_HOOKS, C9.HOOKS),
+                 lemmas=lambda: CP.lemmas() + CA.lemmas() + CR.lemmas(), explanation=(
+        "Deductive part: the STRUCTURE of the three formulations is proved for models with any number of reactions, through an opaque "
+        "expression algebra (every sympy/optlang operation is an uninterpreted function named after the operation, so 'the constraint "
+        "built is Constraint(a - y*(b - c), ub=c, name=...)' is a syntactic statement); what the verifier cannot interpret is that this "
+        "arithmetic denotes the linear combination it writes (trusted) and optimality of the solve (bounded driver). "
+        "Helpers: add_cons_vars_to_problem (proved: performs solver.add(what) and, in a context, registers exactly the inverse "
+        "solver.remove(what) in the innermost context), and fix_objective_as_constraint: "
+        "the constraint it installs is Constraint(objective expression, lb=bound) for a "
         "max problem and (ub=bound) otherwise, bound = optimum x fraction unless given, an older constraint of that name is replaced "
         "reversibly, the bound is returned; add_pfba is proved (any number of reactions) to fix the original objective first with the "
         "requested fraction and then to install an objective named _pfba_objective, direction min, with coefficient 1 on the forward "
@@ -24,11 +29,40 @@ def run(rep):
         "f-r=v the sum f+r is at least |v|, |v| is attained, and at the minimum one of the pair is 0 - so the installed objective is the "
         "total absolute flux; add_absolute_expression (the building block of linear MOMA) is proved to create Variable(name, lb=0, ub) "
         "and the rows expr - var <= difference, expr + var >= difference, with two lemmas: the variable is at least |expr - difference| "
-        "and that distance is admissible. The loops of add_moma / add_room over the reactions and optimality of the secondary problems "
-        "is decided by the bounded driver: the documented problem rebuilt independently from (S, bounds, objective, reference) in "
-        "exact rational arithmetic (ROOM binaries by enumeration) on generated models x objectives x fractions x references x "
-        "knock-out states."),
-        trusted=["sympy/optlang expression arithmetic denotes the linear combination it writes", "GLPK (assumed, monitored)"])
+        "and that distance is admissible. "
+        "add_room (post-condition from the docstring's formulation; loop invariant over model.reactions): with S the reference (the "
+        "solution given, else the result of exactly one call pfba(model) made before the objective is touched; no such call when a "
+        "solution is given) and w = S.fluxes[r.id] looked up BY THE REACTION'S ID, for EVERY reaction r the list handed to the single "
+        "model.add_cons_vars call holds y_r = Variable('y_'+id, type='binary') (Variable('y_'+id, lb=0, ub=1) and delta = epsilon = 0.0 "
+        "when linear), Constraint(flux_expression(r) - y_r*(ub(r) - w_u), ub=w_u, name='room_constraint_upper_'+id) and "
+        "Constraint(flux_expression(r) - y_r*(lb(r) - w_l), lb=w_l, name='room_constraint_lower_'+id) with w_u = w + delta*|w| + epsilon, "
+        "w_l = w - delta*|w| - epsilon, flux_expression(r) = 1.0*forward - 1.0*reverse (the getter is executed); the list starts with "
+        "Variable('room_old_objective') and Constraint(<objective expression at entry> - it, lb=0.0, ub=0.0) and has exactly 2+3n "
+        "entries (the contract fixes their order [y, upper, lower] per reaction in model order - stronger than documented); the objective "
+        "is replaced by Objective(Zero, direction='min', sloppy=True) and then gets coefficient 1 on every y_r and on nothing else; "
+        "ValueError, with nothing done, when the solver already has 'room_old_objective'. (The docstring prints row (2) with <=; the "
+        "paper it cites and the lb= keyword of the row say >=, which is what is checked.) Five lemmas (LRA/NRA) over the rows: y=0 "
+        "confines the flux to [w_l, w_u]; y=1 gives exactly the reaction's own bounds; a flux outside the band forces y>0; the reference "
+        "lies in its band when delta, epsilon >= 0; for 0<=y<=1 and a band inside the bounds the rows imply the bounds. "
+        "add_moma, linear=True: same skeleton with 'moma_old_objective'; per reaction the three components that "
+        "add_absolute_expression(model, flux_expression(r), name='moma_dist_'+id, difference=w, add=False) is PROVED to return (its "
+        "contract is applied at the call site, case return_only: the helper adds nothing itself), all 2+3n objects in one add_cons_vars "
+        "call, zero min objective with coefficient 1 on every distance variable and on nothing else - with the two abs-expr lemmas: the "
+        "objective is sum_r |v_r - w_r|. "
+        "Stated preconditions: every member of model.reactions has that model (so flux_expression is not None), the reactions DictList "
+        "is well formed, delta/epsilon are floats (no NaN). Assumed (listed as trusted): Model.add_cons_vars(what) passes `what` to "
+        "add_cons_vars_to_problem; Objective.set_linear_coefficients sets exactly the given coefficients; the fresh Objective(Zero) has "
+        "all coefficients 0; pfba(model) returns a solution and leaves the model as found (its own parts are add_pfba above and C03's "
+        "context). NOT proved deductively: quadratic MOMA (linear=False: QP objective, possible solver switch) and optimality of the "
+        "secondary problems - decided by the bounded driver: the documented problem rebuilt independently from (S, bounds, objective, "
+        "reference) in exact rational arithmetic (ROOM binaries by enumeration) on generated models x objectives x fractions x "
+        "references x knock-out states."),
+        trusted=["sympy/optlang expression arithmetic denotes the linear combination it writes", "GLPK (assumed, monitored)",
+                 "Model.add_cons_vars(what) hands `what` unchanged to add_cons_vars_to_problem (one-line wrapper, read not executed)",
+                 "optlang Objective.set_linear_coefficients on freshly built variables sets exactly the given coefficients; "
+                 "Objective(Zero, ...) has no non-zero coefficient",
+                 "pfba(model) (reference when none is given) returns a Solution and restores the model (with-block, C03)",
+                 "string concatenation is an uninterpreted injective-free function (names are compared as terms)"])
 
 
 def replay(payload):
